@@ -459,7 +459,11 @@ theorem eval_repaired_eq_eval (pu pv pw : ℕ) (Uu Uv Uw : ℕ → K) (su sv sw 
 
 /-- **Surfaces, closed domain, every valid knot vectors** (per direction `DomOk`): the evaluated point is the tensor-product
     sum with the recursions of the spans the repaired search finds (non-empty, containing the parameter:
-    `C03.findSpanLinearR_spec` per direction), and the Cox–de Boor tensor sum below the domain ends. -/
+    `C03.findSpanLinearR_spec` per direction), and the Cox–de Boor tensor sum below the domain ends.  Unlike the curve
+    statement this one has NO domain hypothesis for the first identity and does not repeat the span facts: the identity
+    with the recursions of the two spans found holds for every `(u, v)` (outside the domain both sides are the model's /
+    the code's extrapolation; the driver op `sevalr` answers ERR there); that the spans are legal, non-empty and contain
+    the parameters on the closed domain is `C03.findSpanLinearR_spec` applied per direction. -/
 theorem surface_eval_repaired_closed (pu pv d : ℕ) (Uu Uv : ℕ → K) (su sv : ℕ) (P : List (List K))
     (hUu : DomOk pu Uu su) (hUv : DomOk pv Uv sv) (hlen : P.length = su * sv) (hP : NetOk d P) (u v : K) (j : ℕ) :
     (surfacePointR pu pv Uu Uv su sv P u v).getD j 0
